@@ -233,7 +233,16 @@ def real_dumps(doc, a, form=0, explicit_defaults=False):
             for k, v in vars(options).items():
                 setattr(c['options'], k, v)
             options = c['options']
-    return c['exporter'].export_string(doc, options)
+    try:
+        return c['exporter'].export_string(doc, options)
+    finally:
+        # the ExportOptions object (and the collections in it) belong to the caller: they are emptied after the call
+        for v in list(vars(options).values()):
+            if isinstance(v, (set, list, dict)):
+                try:
+                    v.clear()
+                except Exception:  # noqa
+                    pass
 
 
 _CTX = {}
